@@ -160,11 +160,25 @@ fn steps_arrival_curve_prefix_rest() {
     }
 }
 
+
+/// a user-defined arrival model in which nothing arrives in very short intervals (floor instead of ceil)
+pub struct FloorPeriodic { pub period: u64 }
+impl ArrivalBound for FloorPeriodic {
+    fn number_arrivals(&self, delta: Duration) -> usize { (u(delta) / self.period) as usize }
+    fn steps_iter<'a>(&'a self) -> Box<dyn Iterator<Item = Duration> + 'a> { Box::new((1..).map(move |k: u64| d(k * self.period))) }
+    fn clone_with_jitter(&self, jitter: Duration) -> Box<dyn ArrivalBound> { Box::new(Propagated::with_jitter(&FloorPeriodic { period: self.period }, jitter)) }
+}
+impl Clone for FloorPeriodic { fn clone(&self) -> Self { FloorPeriodic { period: self.period } } }
+
+/// Propagated over an input with number_arrivals(1) == 0: the step at 1 exists iff the jitter reaches the first input step
 #[kani::proof]
 #[kani::unwind(8)]
-fn steps_sum_of_periodics() {
-    // concrete small periods that force merge + dedup (common multiple at 6)
-    let ab = arrival::sum_of(Periodic::new(d(2)), Periodic::new(d(3)));
-    kani::cover!(true);
-    check_steps_prefix(&ab, 5);
+fn steps_propagated_floor() {
+    let t: u64 = kani::any();
+    let r: u64 = kani::any();
+    kani::assume(t >= 2 && t <= 5 && r <= 6);
+    let p = Propagated::with_jitter(&FloorPeriodic { period: t }, d(r));
+    kani::cover!(r + 1 >= t);
+    kani::cover!(r + 1 < t);
+    check_steps_prefix(&p, 2);
 }
